@@ -2,7 +2,8 @@
    [run entry args] evaluates one modelled entry point on byte-string arguments and
    returns the projected observables as byte strings.  Integers travel as 8-byte
    big-endian two's complement. *)
-From Model Require Import Bytes Entries Prim Tables ExtCrypto Cert KAC Mapping Sig LS RI Time Crypto.
+From Gen Require Import Consts.
+From Model Require Import Bytes Entries Prim Tables ExtCrypto Cert KAC Mapping Sig LS RI Time Crypto Base Addr.
 Open Scope N_scope.
 
 Definition argZ (b : bytes) : Z := wrap64 (Z.of_N (be_decode b)).
@@ -132,6 +133,25 @@ Definition run_struct (e : N) (a : list bytes) : option (res (list bytes)) :=
   else if e =? E_VerifyEncryptedLeaseSet then Some (do p <- read_encrypted_lease_set a0; out_queries (els_verify_queries (fst p)))
   else if e =? E_VerifyOfflineSignature then Some (
     do p <- read_offline_signature a0 (argN a1); out_queries (option_map (fun q => [q]) (offline_query (fst p) (arg 2 a))))
+  else if e =? E_B32Encode then Some (Ok [b32_encode true a0])
+  else if e =? E_B32Decode then Some (one (b32_decode_string a0))
+  else if e =? E_B32EncodeNoPad then Some (Ok [b32_encode false a0])
+  else if e =? E_B32DecodeNoPad then Some (one (b32_decode_nopad a0))
+  else if e =? E_B32DecodeSafe then Some (one (b32_decode_safe a0))
+  else if e =? E_B32DecodeSafeNoPad then Some (one (b32_decode_safe_nopad a0))
+  else if e =? E_B64Encode then Some (Ok [b64_encode a0])
+  else if e =? E_B64Decode then Some (one (b64_decode a0))
+  else if e =? E_B64DecodeSafe then Some (one (b64_decode_safe a0))
+  else if e =? E_DestAddresses then Some (
+    do p <- read_keys_and_cert a0; do b <- kac_bytes (fst p); do b64 <- dest_base64 (fst p);
+    Ok [b; base32_address a1; b64])
+  else if e =? E_RouterAddrAccessors then Some (
+    do p <- read_router_address a0;
+    let ra := fst p in
+    let ob (o : option bytes) := match o with Some x => [outB true; x] | None => [outB false; []] end in
+    Ok (ob (ra_host ra) ++ ob (ra_port ra) ++ [outB (ra_has_valid_host ra); outB (ra_has_valid_port ra); ra_ip_version ra]
+        ++ ob (ra_fixed_key ra s_router_address_STATIC_KEY_OPTION_KEY c_router_address_STATIC_KEY_SIZE)
+        ++ ob (ra_fixed_key ra s_router_address_INITIALIZATION_VECTOR_OPTION_KEY c_router_address_INITIALIZATION_VECTOR_SIZE)))
   (* size/deny lookups on one 16-bit code (C09, C10 translation validation) *)
   else if e =? E_KCSizes then Some (let t := argZ a0 in
     Ok [optZ (kc_sig_size t); optZ (kc_spk_size t); optZ (kc_crypto_size t); optZ (kc_crypto_pub_sizes t); optZ (kc_sig_pub_sizes t)])
